@@ -84,3 +84,44 @@ func H_C19_DescFile() {
 	})
 	v.Reach("end")
 }
+
+// H_C19_Username: whatever username the client types and whatever username
+// a (valid, verified) token carries - ANY byte strings - the name that
+// GetPermission hands to the group layer, and hence to member lists and to
+// the disk writer, is empty or a valid name (no backslash, no empty, "." or
+// ".." component).  Three credential kinds: token carrying a username, token
+// without one (the client's is used), password.
+func H_C19_Username() {
+	kind := v.Choice("kind", 3)
+	L := v.Choice("L", v.Param("Lmax")+1)
+	LT := 0
+	if kind == 0 {
+		LT = v.Choice("LT", v.Param("Lmax")+1)
+	}
+	s := v.String("client", L)
+	t := v.String("tokuser", LT)
+	present, _ := NewPermissions("present")
+	desc := &Description{WildcardUser: &UserDescription{Password: Password{Type: "wildcard"}, Permissions: present}}
+	var creds ClientCredentials
+	if v.Choice("hasuser", 2) == 1 {
+		creds.Username = &s
+	}
+	switch kind {
+	case 0:
+		creds.Token = "tok"
+		zzTheToken = &zzTok{user: t, perms: []string{"message"}, needs: false}
+		zzParseErr = nil
+	case 1:
+		creds.Token = "tok"
+		zzTheToken = &zzTok{user: "", perms: []string{"message"}, needs: true}
+		zzParseErr = nil
+	case 2:
+		creds.Password = "pw"
+	}
+	username, _, err := desc.GetPermission("g", creds)
+	if err == nil {
+		v.Assert(v.Or(len(username) == 0, refValidName(username)), "the username a client ends up with is empty or a valid name, wherever it came from (typed, or carried by a token)")
+		v.Reach("accepted")
+	}
+	v.Reach("end")
+}
